@@ -222,6 +222,19 @@ def build_markers(timeout_ms=None):
     return verify.verify_function(ix, th, w, use_contracts=list(contracts), contracts=contracts, loop_specs=specs, timeout_ms=timeout_ms)
 
 
+def atom_roundtrip(timeout_ms=None):
+    """C07, atoms: str() then packaging's reading of the text then _build_markers gives the atom back"""
+    from pyvc import extract, verify
+    from contracts import build_markers as BM
+    ix = extract.Index()
+    th, ax, contracts, c, specs = BM.setup(ix)
+    q = "dep_logic.markers.single:MarkerExpression.__str__"
+    rep = verify.verify_cases(ix, th, q, list(BM.roundtrip_cases(th)), timeout_ms=timeout_ms)
+    rep.functions[q]["hash"] = ix.func(q).source_hash()
+    rep.functions[q]["mode"] = "verified against its contract"
+    return rep
+
+
 def spec_c14(chunk=None, timeout_ms=None):
     from pyvc import verify
     ix, th, contracts, CR, CU, L, T = _spec_env()
